@@ -270,6 +270,37 @@ func init() {
 					}
 				}
 			}
+			// structural mutations of the skeleton files (all concrete: one path each)
+			for _, k := range []string{"init", "plain", "seg", "seg2f", "2seg", "sidx2", "nostyp", "emsg", "mfra", "2trenc"} {
+				for bi := 0; bi < 48; bi++ {
+					for _, mu := range []string{"drop", "swap", "dup", "trunc", "last"} {
+						for mode := 0; mode < 5; mode++ {
+							if (mode == 2 && k != "plain") || (mode >= 3 && (k == "init" || k == "plain")) {
+								continue
+							}
+							c := inst(mod+"/mp4", "VerifC04Mut", k, mu, itoa(bi), itoa(mode))
+							c.MaxWallS = tierW(tier, 8, 60)
+							r = append(r, c)
+						}
+					}
+				}
+			}
+			for _, k := range []string{"seg", "2seg", "nostyp", "emsg"} {
+				for _, d := range []int{0, 8, -8} {
+					c := inst(mod+"/mp4", "VerifC04LazyWrap", k, itoa(d))
+					c.MaxWallS = tierW(tier, 20, 120)
+					r = append(r, c)
+				}
+			}
+			for _, lg := range []string{"false", "true"} {
+				for _, np := range []int{0, 3, 9} {
+					for _, tr := range []string{"false", "true"} {
+						c := inst(mod+"/mp4", "VerifC04LazyMdat", lg, itoa(np), tr)
+						c.MaxWallS = tierW(tier, 20, 120)
+						r = append(r, c)
+					}
+				}
+			}
 			for _, c := range r {
 				c.StepBudget, c.StepsPerByte, c.StepIsViol = 100000, 4000, true
 				c.AllocBudget, c.AllocPerByte, c.AllocIsViol = 1<<20, 64, true
